@@ -21,6 +21,7 @@ BR, _ = loader.load_cut("onnxscript.rewriter.rules.common._basic_rules")
 CS, _ = loader.load_cut("onnxscript.rewriter.rules.common._collapse_slices")
 EX, _ = loader.load_cut("onnxscript.rewriter.rules.common._remove_expand_before_binary_op")
 IU, _ = loader.load_cut("onnxscript.rewriter._ir_utils")
+MR, _ = loader.load_cut("onnxscript.rewriter.rules.common._materialize_reshape_shape")
 
 
 # ----------------------------------------------------------------------------------------------------------- stubs
@@ -393,6 +394,54 @@ def expand_s23(strategy: int, xk0: int, xk1: int, x0: int, x1: int, yk0: int, yk
                         [ux0, ux1], [uy0, uy1], [ue0, ue1])
 
 
+# ------------------------------------------------------------------------------------- MaterializeReshapeShape
+def materialize_reshape(k0: int, k1: int, k2: int, d0: int, d1: int, d2: int, rank: int, u0: int, u1: int, u2: int, n: int, m: int) -> bool:
+    """Reshape(data, dynamic shape) with an annotated output -> Reshape(data, constant, allowzero=1): whenever the rule fires, the
+    constant target must be a VALID target (allowzero=1 forbids 0 beside -1; a -1 cannot be inferred beside a zero dim) that yields
+    the annotated output shape under every binding of its symbolic dim
+    vp-pre: 1 <= rank <= 3 and 0 <= k0 <= 3 and 0 <= k1 <= 3 and 0 <= k2 <= 3
+    vp-pre: d0 >= 0 and d1 >= 0 and d2 >= 0 and u0 >= 0 and u1 >= 0 and u2 >= 0 and n >= 0 and m >= 0
+    """
+    kinds, vals = [k0, k1, k2][:rank], [d0, d1, d2][:rank]
+    saved_u, saved_ir = MR.ir_utils, MR.ir
+
+    class U:
+        @staticmethod
+        def get_numpy_value(v):
+            return None
+
+    class I:
+        DataType = ir.DataType
+
+        @staticmethod
+        def tensor(x, dtype=None):
+            return list(x)
+
+    MR.ir_utils, MR.ir = U, I
+    try:
+        rule = MR.MaterializeReshapeShape()
+        if not rule.check(Ctx(mk_shape(kinds, vals)), FakeValue("data"), FakeValue("shape")):
+            return True
+        rep = rule.rewrite(RecOp(), "data", "shape")
+    finally:
+        MR.ir_utils, MR.ir = saved_u, saved_ir
+    assert rep[0] == "Reshape" and rep[1][1][0] == "Constant"
+    tgt = list(rep[1][1][2]["value"])
+    allowzero = rep[2].get("allowzero", 0)
+    out_rt = runtime(kinds, vals, n, m, [u0, u1, u2])
+    if len(tgt) != rank:
+        return False
+    neg = [i for i in range(rank) if tgt[i] == -1]
+    if len(neg) > 1 or any(t < -1 for t in tgt):
+        return False
+    if allowzero != 1:
+        return False        # a static 0 would mean "copy from the input"
+    if neg and any(t == 0 for t in tgt):
+        return False        # invalid under allowzero=1, and the -1 could not be inferred anyway
+    # every non-negative entry must be the runtime output dim; the -1 is inferred as total / (product of the others) = that dim
+    return all(tgt[i] == out_rt[i] for i in range(rank) if tgt[i] != -1)
+
+
 OBLIGATIONS = [
     {"id": "c05.lemma.transpose2", "func": "transpose2", "timeout": 60,
      "functions": ["onnxscript.rewriter.rules.common._basic_rules:TransposeTranspose.check", "onnxscript.rewriter.rules.common._basic_rules:TransposeTranspose.rewrite"],
@@ -406,6 +455,11 @@ OBLIGATIONS = [
     {"id": "c05.lemma.unsqueeze_unsqueeze", "func": "unsqueeze_unsqueeze", "timeout": 120,
      "functions": ["onnxscript.rewriter.rules.common._basic_rules:UnsqueezeUnsqueeze.check", "onnxscript.rewriter.rules.common._basic_rules:UnsqueezeUnsqueeze.rewrite"],
      "bounds": "axes: all integers; rank of x 0..4", "stubs": ["ir_utils.get_singleton_value -> symbolic int", "ir.tensor -> list", "RecOp"]},
+    {"id": "c05.lemma.materialize_reshape", "func": "materialize_reshape", "timeout": 200,
+     "functions": ["onnxscript.rewriter.rules.common._materialize_reshape_shape:MaterializeReshapeShape.check",
+                   "onnxscript.rewriter.rules.common._materialize_reshape_shape:MaterializeReshapeShape.rewrite"],
+     "bounds": "output annotation of rank 1..3, every dim static (unbounded >= 0) / N / M / anonymous with unbounded runtime values",
+     "stubs": ["ir_utils.get_numpy_value -> None (dynamic shape input)", "ir.tensor -> list", "RecOp", "Ctx"]},
     *[{"id": f"c05.lemma.collapse_slice.r{r}", "func": "collapse_slice", "extra_pres": [f"rank == {r}"], "timeout": 200,
        "functions": ["onnxscript.rewriter.rules.common._collapse_slices:_check_if_redundant_slice"],
        "bounds": f"rank {r}; start/end/step: all integers; axis in [-rank, rank); dims static (0 <= d < 2**62) / N / M / anonymous with runtime values in [0, 2**62)",
